@@ -20,25 +20,39 @@ const Instance = primitives.InstanceId(7001)
 
 // Config of one simulated world. JSON-able: it is part of every replay file.
 type Config struct {
-	N           int      `json:"n"`
-	Weights     []uint64 `json:"weights"`                 // by identity index 0..N-1
-	Order       []int    `json:"order"`                   // committee order at height 1 (a permutation of 0..N-1)
-	Rot         int      `json:"rot"`                     // the order is rotated by Rot positions per height
-	WRot        int      `json:"wrot,omitempty"`          // the weight vector is rotated by WRot positions per height (weights differ between heights)
-	Byz         []int    `json:"byz"`                     // identity indices whose keys the adversary holds
-	Crashed     []int    `json:"crashed"`                 // correct but silent members
-	Outsiders   int      `json:"outsiders"`               // identities with keys that are in no committee
-	MaxHeight   uint64   `json:"max_height"`              // nodes stop being scheduled once past this height
-	Focus       string   `json:"focus"`                   // property whose monitors are armed
-	FailCommit  []int    `json:"fail_commit,omitempty"`   // nodes whose commit callback returns an error ...
-	FailCommitH uint64   `json:"fail_commit_h,omitempty"` // ... at this height (the consumer failed to persist the block)
-	AcceptAllAt []int    `json:"accept_all_at,omitempty"` // nodes whose consumer validator approves everything, even a missing block (C12)
-	RejectAt    []int    `json:"reject_at,omitempty"`     // nodes whose validator additionally rejects blocks with an id ending in "!r"
-	Absent      []int    `json:"absent,omitempty"`        // identities that are NOT in the committee ...
-	AbsentH     uint64   `json:"absent_h,omitempty"`      // ... of this height (membership changes between heights; a correct absent node only moves on by sync)
-	SendFail    []int    `json:"send_fail,omitempty"`     // nodes whose transport fails ...
-	SendFailU   int      `json:"send_fail_u,omitempty"`   // ... on sends of this envelope kind + 1 (0 = any kind) ...
-	SendFailNth int      `json:"send_fail_nth,omitempty"` // ... at the n-th such send (1-based; 0 = every one): half of the recipients get the message, the library gets an error
+	N           int        `json:"n"`
+	Weights     []uint64   `json:"weights"`                 // by identity index 0..N-1
+	Order       []int      `json:"order"`                   // committee order at height 1 (a permutation of 0..N-1)
+	Rot         int        `json:"rot"`                     // the order is rotated by Rot positions per height
+	WRot        int        `json:"wrot,omitempty"`          // the weight vector is rotated by WRot positions per height (weights differ between heights)
+	Byz         []int      `json:"byz"`                     // identity indices whose keys the adversary holds
+	Crashed     []int      `json:"crashed"`                 // correct but silent members
+	Outsiders   int        `json:"outsiders"`               // identities with keys that are in no committee
+	MaxHeight   uint64     `json:"max_height"`              // nodes stop being scheduled once past this height
+	Focus       string     `json:"focus"`                   // property whose monitors are armed
+	FailCommit  []int      `json:"fail_commit,omitempty"`   // nodes whose commit callback returns an error ...
+	FailCommitH uint64     `json:"fail_commit_h,omitempty"` // ... at this height (the consumer failed to persist the block)
+	AcceptAllAt []int      `json:"accept_all_at,omitempty"` // nodes whose consumer validator approves everything, even a missing block (C12)
+	RejectAt    []int      `json:"reject_at,omitempty"`     // nodes whose validator additionally rejects blocks with an id ending in "!r"
+	Absent      []int      `json:"absent,omitempty"`        // identities that are NOT in the committee ...
+	AbsentH     uint64     `json:"absent_h,omitempty"`      // ... of this height (membership changes between heights; a correct absent node only moves on by sync)
+	Interrupt   *Interrupt `json:"interrupt,omitempty"`     // a main-loop step that lands while the worker of one node is inside a consumer call
+	SendFail    []int      `json:"send_fail,omitempty"`     // nodes whose transport fails ...
+	SendFailU   int        `json:"send_fail_u,omitempty"`   // ... on sends of this envelope kind + 1 (0 = any kind) ...
+	SendFailNth int        `json:"send_fail_nth,omitempty"` // ... at the n-th such send (1-based; 0 = every one): half of the recipients get the message, the library gets an error
+}
+
+// Interrupt: while node Node is inside its Nth call of the consumer function Kind (validate | propose), the MAIN loop handles an
+// event - the node's armed election trigger fires, or a sync arrives - cancelling contexts as the real main loop does; the worker
+// part of that event runs right after the interrupted worker step returns. This is the interleaving "election / sync while the
+// worker sits in an SPI call" inside the deterministic engine. With GiveUp the consumer abandons a validation whose context was
+// cancelled under it and returns nil.
+type Interrupt struct {
+	Node   int    `json:"node"`
+	Kind   string `json:"kind"`
+	Nth    int    `json:"nth"`
+	Event  string `json:"event"` // trigger | sync
+	GiveUp bool   `json:"give_up,omitempty"`
 }
 
 type Commit struct {
@@ -91,6 +105,12 @@ type Node struct {
 	Panics  []string
 	// prev block/proof handed to the term of each height (from the new-round callback)
 	PrevOf map[uint64]Round
+	// interrupt bookkeeping: calls seen per kind, and the worker half of an interrupting event that is still to run
+	spiCalls    map[string]int
+	pendingTrig *interfaces.ElectionTrigger
+	pendingSync *Commit
+	// Interrupted: the main loop handled an event (cancelling contexts) during the worker step that is being judged right now
+	Interrupted bool
 }
 
 func (n *Node) H() uint64 { return uint64(n.VN.State().Height()) }
@@ -171,6 +191,7 @@ type Obs struct {
 	HeightsDone  uint64
 	Panicked     bool
 	SendFailures int
+	Interrupts   int
 }
 
 func isIn(xs []int, x int) bool {
@@ -301,6 +322,11 @@ func (w *World) newNode(i int) *Node {
 		n.BU.Reject = func(b *fakes.Block) bool { return b != nil && len(b.ID) > 1 && b.ID[len(b.ID)-2:] == "!r" }
 	}
 	n.BU.AcceptAll = isIn(w.Cfg.AcceptAllAt, i)
+	if it := w.Cfg.Interrupt; it != nil && it.Node == i {
+		n.spiCalls = map[string]int{}
+		n.BU.GiveUpOnCancel = it.GiveUp
+		n.BU.Gate = func(kind string, ctx context.Context, h primitives.BlockHeight) { w.interrupt(n, kind) }
+	}
 	n.Mem = &fakes.Membership{Me: n.ID, Committee: w.Committee}
 	n.Sto = fakes.NewRecStorage()
 	n.Sch = fakes.NewSched()
@@ -325,6 +351,67 @@ func (w *World) newNode(i int) *Node {
 			w.onRound(n, uint64(h), prev, canBeFirst)
 		})
 	return n
+}
+
+// interrupt: the main-loop half of the configured event, run from inside the consumer call.
+func (w *World) interrupt(n *Node, kind string) {
+	it := w.Cfg.Interrupt
+	n.spiCalls[kind]++
+	if it == nil || kind != it.Kind || n.spiCalls[kind] != it.Nth || n.pendingTrig != nil || n.pendingSync != nil {
+		return
+	}
+	switch it.Event {
+	case "trigger":
+		if trig := n.Sch.Trigger(); trig != nil {
+			n.VN.Gc()
+			if n.VN.MainElection(trig) {
+				n.pendingTrig = trig
+				n.Interrupted = true
+				w.Obs.Interrupts++
+			}
+		}
+	case "sync":
+		h := n.H()
+		for _, src := range w.CorrectLive() {
+			if src == n.Idx {
+				continue
+			}
+			for k := range w.Nodes[src].Commits {
+				if c := &w.Nodes[src].Commits[k]; c.H == h {
+					n.VN.Gc()
+					if n.VN.MainUpdateState(c.Block, c.Proof) {
+						n.pendingSync = c
+						n.Interrupted = true
+						w.Obs.Interrupts++
+					}
+					return
+				}
+			}
+		}
+	}
+}
+
+// runPending: the worker half of an interrupting event, as its own step with its own monitors.
+func (w *World) runPending(n *Node) {
+	if trig := n.pendingTrig; trig != nil {
+		n.pendingTrig = nil
+		n.Inbox = append(n.Inbox, InEvent{Kind: "timeout"})
+		pre := w.Mon.pre(n)
+		w.guard(n, func() { n.VN.WorkerElection(trig) })
+		w.Mon.onTimeout(n, pre)
+	}
+	if c := n.pendingSync; c != nil {
+		n.pendingSync = nil
+		n.Inbox = append(n.Inbox, InEvent{Kind: "sync", Block: c.Block, Proof: c.Proof})
+		pre := w.Mon.pre(n)
+		w.guard(n, func() {
+			if c.H >= n.H() {
+				w.Mon.beforeSync(n, c)
+			}
+			n.VN.WorkerUpdateState(c.Block, c.Proof)
+		})
+		w.Mon.onSync(n, c, pre)
+	}
 }
 
 // transport: the node's Communication SPI. For nodes listed in SendFail the configured send fails half way: only the first half
@@ -535,6 +622,7 @@ func (w *World) deliver(m *Msg) {
 	w.Obs.Delivered++
 	pre := w.Mon.pre(n)
 	w.Mon.beforeDeliver(n, m)
+	n.Interrupted = false
 	w.delivering = m.ID
 	w.guard(n, func() {
 		n.VN.Gc()
@@ -546,6 +634,7 @@ func (w *World) deliver(m *Msg) {
 		w.Obs.MaxView = v
 	}
 	w.Mon.onDelivered(n, m, pre)
+	w.runPending(n)
 }
 
 func (w *World) timeout(i int) {
@@ -573,6 +662,7 @@ func (w *World) timeout(i int) {
 		w.Obs.MaxView = v
 	}
 	w.Mon.onTimeout(n, pre)
+	w.runPending(n)
 }
 
 // sync delivers UpdateState(block, proof) where (block, proof) was committed by correct node src at height h.
